@@ -6,7 +6,7 @@ import (
 	"golang.org/x/tools/go/ssa"
 )
 
-func (in *Interp) builtin(b *ssa.Builtin, args []Value, fr *frame, call *ssa.Call) Value {
+func (in *Interp) builtin(b *ssa.Builtin, args []Value, fr *frame, cc *ssa.CallCommon, resT types.Type) Value {
 	ts := in.ts
 	switch b.Name() {
 	case "len":
@@ -28,7 +28,7 @@ func (in *Interp) builtin(b *ssa.Builtin, args []Value, fr *frame, call *ssa.Cal
 		case ArrayV:
 			return in.intConst(int64(len(x)))
 		case Ptr: // *array
-			at := under(call.Call.Args[0].Type().(*types.Pointer).Elem()).(*types.Array)
+			at := under(cc.Args[0].Type().(*types.Pointer).Elem()).(*types.Array)
 			return in.intConst(at.Len())
 		}
 	case "cap":
@@ -43,14 +43,14 @@ func (in *Interp) builtin(b *ssa.Builtin, args []Value, fr *frame, call *ssa.Cal
 		case ArrayV:
 			return in.intConst(int64(len(x)))
 		case Ptr:
-			at := under(call.Call.Args[0].Type().(*types.Pointer).Elem()).(*types.Array)
+			at := under(cc.Args[0].Type().(*types.Pointer).Elem()).(*types.Array)
 			return in.intConst(at.Len())
 		}
 	case "append":
 		s := args[0].(Slice)
 		var et types.Type
-		if call != nil {
-			et = under(call.Type()).(*types.Slice).Elem()
+		if resT != nil {
+			et = under(resT).(*types.Slice).Elem()
 		} else {
 			panic(engineErr("deferred append"))
 		}
@@ -105,8 +105,8 @@ func (in *Interp) builtin(b *ssa.Builtin, args []Value, fr *frame, call *ssa.Cal
 				return in.intConst(0)
 			}
 			es := 1
-			if call != nil {
-				es = in.slotCount(under(call.Call.Args[0].Type()).(*types.Slice).Elem())
+			if cc != nil {
+				es = in.slotCount(under(cc.Args[0].Type()).(*types.Slice).Elem())
 			}
 			tmp := make([]Value, n*es)
 			copy(tmp, y.Obj.Slots[y.Off:y.Off+n*es])
@@ -130,8 +130,8 @@ func (in *Interp) builtin(b *ssa.Builtin, args []Value, fr *frame, call *ssa.Cal
 		if m != nil {
 			kt = m.KT
 		}
-		if call != nil {
-			kt = under(call.Call.Args[0].Type()).(*types.Map).Key()
+		if cc != nil {
+			kt = under(cc.Args[0].Type()).(*types.Map).Key()
 		}
 		in.mapDelete(m, args[1], kt)
 		return nil
@@ -143,7 +143,7 @@ func (in *Interp) builtin(b *ssa.Builtin, args []Value, fr *frame, call *ssa.Cal
 				x.Entries = nil
 			}
 		case Slice:
-			et := under(call.Call.Args[0].Type()).(*types.Slice).Elem()
+			et := under(cc.Args[0].Type()).(*types.Slice).Elem()
 			es := in.slotCount(et)
 			for i := 0; i < x.Len; i++ {
 				in.storeAt(x.Obj, x.Off+i*es, et, in.zero(et))
@@ -162,7 +162,7 @@ func (in *Interp) builtin(b *ssa.Builtin, args []Value, fr *frame, call *ssa.Cal
 	case "min", "max":
 		isMin := b.Name() == "min"
 		res := args[0]
-		t := call.Type()
+		t := resT
 		for _, a := range args[1:] {
 			switch x := res.(type) {
 			case *Term:
